@@ -300,7 +300,7 @@ def _find_dunder(cls, name):
 def setitem(I, o, k, v):
     if isinstance(k, SYM):
         if isinstance(o, dict):
-            k = concretize(I, k)
+            k = dict_key(I, o, k)
         else:
             I.unsupported("item assignment with a symbolic key")
     if isinstance(o, (dict, list)) or isinstance(o, tuple(ENGINE_TYPES)):
@@ -314,7 +314,7 @@ def setitem(I, o, k, v):
 def delitem(I, o, k):
     if isinstance(k, SYM):
         if isinstance(o, dict):
-            k = concretize(I, k)
+            k = dict_key(I, o, k)
         else:
             I.unsupported("del with a symbolic key")
     if isinstance(o, (dict, list)):
@@ -323,6 +323,35 @@ def delitem(I, o, k):
     if isinstance(di, types.FunctionType) and I.func_info(di) is not None:
         return I.call(types.MethodType(di, o), [k], {})
     return I.native(operator.delitem, o, k)
+
+
+@engine_type
+class SymKey(object):
+    """placeholder for a dict key whose text is symbolic and provably different from every other key of the dict"""
+
+    def __init__(self, s):
+        self.s = s
+
+    def psx_symbolic(self):
+        return True
+
+    def __repr__(self):
+        return "<SymKey>"
+
+
+def dict_key(I, d, k):
+    """resolve a symbolic key against a dict: fork over 'equals existing key i' / 'a new key'"""
+    tp = pytype(k)
+    keys = [x for x in d if isinstance(x, tp) and not isinstance(x, SymKey)]
+    skeys = [x for x in d if isinstance(x, SymKey) and pytype(x.s) is tp]
+    conds = [bterm(I.eq(k, x)) for x in keys] + [bterm(I.eq(k, x.s)) for x in skeys]
+    none = Not(Or(*conds)) if conds else True
+    j = I.choose_feasible(conds + [none])
+    if j < len(keys):
+        return keys[j]
+    if j < len(keys) + len(skeys):
+        return skeys[j - len(keys)]
+    return SymKey(k)
 
 
 def concretize(I, v, limit=64):
@@ -625,7 +654,12 @@ def _render_int(I, t):
         nd = MAX_INT_DIGITS
         lim = 10 ** MAX_INT_DIGITS
         if I.decide(Or(t >= lim, t <= -lim)):
-            raise BoundExceeded("an integer rendered as text may have more than %d digits on this path" % MAX_INT_DIGITS)
+            # beyond the rendering bound the text is not modelled digit by digit: an unconstrained digit string
+            # (over-approximation; a counterexample that depends on it would not replay)
+            a = sstr.new_atom(sstr.fresh_name("bigint"), 24)
+            a.alpha = [(45, 45), (48, 57)]
+            I.add_side(a.domain_constraints() + [a.n >= MAX_INT_DIGITS] + [z3.Or(c == 45, z3.And(c >= 48, c <= 57)) for c in a.c])
+            return SymStr([a])
         neg = I.decide(t < 0)
     s, cons = sstr.render_int(-t if neg else t, nd)
     I.add_side(cons)
@@ -1547,8 +1581,8 @@ def _dict_get(I, d, args, kwargs):
 def _dict_keyed_factory(name):
     def m(I, d, args, kwargs):
         if args and isinstance(args[0], SYM):
-            args = [concretize(I, args[0])] + list(args[1:])
-        if args and contains_sym(args[0]):
+            args = [dict_key(I, d, args[0])] + list(args[1:])
+        if args and contains_sym(args[0]) and not isinstance(args[0], SymKey):
             I.unsupported("dict key containing symbolic data")
         return I.native(getattr(d, name), *args, **kwargs)     # values are stored, never inspected
     return m
